@@ -3,8 +3,9 @@ CONSTANTS
   GseLenMax = 4095
   TotalLenMax = 65535
   Maxes = {0, 1, 2, 3, 255}
+  OutOfStep = TRUE
   Export = FALSE
   Depth = 0
 VIEW View
-INVARIANTS TypeOK Attribution ResolveNearest DisabledNeverSubstitutes MaxRespected FullAfterClear SubstituteOnlySame
+INVARIANTS TypeOK Attribution AttributionOutOfStep ResolveNearest DisabledNeverSubstitutes MaxRespected FullAfterClear SubstituteOnlySame
 CHECK_DEADLOCK FALSE
